@@ -97,9 +97,11 @@ def truncate_sample(x, limit=1600):
 # ---------------------------------------------------------------------------
 
 class Note:
-    __slots__ = ('nontrivial', 'labels', 'extra_eval', 'sample')
+    __slots__ = ('nontrivial', 'labels', 'extra_eval', 'sample', 'points', 'nontrivial_points')
 
     def __init__(self):
+        self.points = 1             # how many points of the input space this case covers
+        self.nontrivial_points = 0  # distinct non-trivial points inside an aggregated case
         self.nontrivial = False
         self.labels = []
         self.extra_eval = 0     # extra executions of code under test
@@ -115,6 +117,7 @@ class FacetResult:
         self.evaluations = 0
         self.executions = 0
         self.nontrivial = set()
+        self.nontrivial_extra = 0
         self.labels = collections.Counter()
         self.samples = []
         self.violations = []    # dicts: sig, oracle, message, case(jsonable), seed
@@ -127,6 +130,7 @@ class FacetResult:
         self.evaluations += other.evaluations
         self.executions += other.executions
         self.nontrivial |= other.nontrivial
+        self.nontrivial_extra += other.nontrivial_extra
         self.labels.update(other.labels)
         for s in other.samples:
             if len(self.samples) < 6:
@@ -233,16 +237,18 @@ def _run_case(facet, case, res, known, collect_sample=True):
     """Runs check on one case; returns a Violation or None.  Non-Violation
     exceptions propagate (harness error)."""
     note = Note()
-    res.evaluations += 1
     try:
         facet.fn(case, note)
     except Violation as v:
+        res.evaluations += note.points
         res.executions += 1 + note.extra_eval
         if v.sig in known:
             res.known_hits[v.sig] += 1
             return None
         return v
+    res.evaluations += note.points
     res.executions += 1 + note.extra_eval
+    res.nontrivial_extra += note.nontrivial_points
     for l in note.labels:
         res.labels[l] += 1
     if note.nontrivial:
@@ -533,7 +539,7 @@ def run_property(prop, tier, seed, only_facets=None):
                    partial=bool(only_facets))
     for name, r in results.items():
         print('%s/%s: %d cases, %d distinct non-trivial, %.1fs%s' % (
-            prop.id, name, r.evaluations, len(r.nontrivial), r.wall,
+            prop.id, name, r.evaluations, len(r.nontrivial) + r.nontrivial_extra, r.wall,
             ' (exhaustive)' if r.exhaustive else ''))
     print('%s %s seed=%d: %s in %.1fs' % (
         prop.id, tier, seed,
@@ -551,13 +557,13 @@ def write_evidence(prop, tier, seed, results, wall, nviol, regress_run, known_se
     for name, r in results.items():
         evaluations += r.evaluations
         executions += r.executions
-        distinct += len(r.nontrivial)
+        distinct += len(r.nontrivial) + r.nontrivial_extra
         if not r.exhaustive:
             exhaustive_all = False
         facets[name] = {
             'evaluations': r.evaluations,
             'executions_of_code_under_test': r.executions,
-            'distinct_nontrivial': len(r.nontrivial),
+            'distinct_nontrivial': len(r.nontrivial) + r.nontrivial_extra,
             'class_histogram': dict(sorted(r.labels.items())),
             'exhaustive': bool(r.exhaustive),
             'wall_s': round(getattr(r, 'wall', 0.0), 2),
